@@ -75,8 +75,14 @@ async fn verif_replay_model_roundtrip() {
             }
         }
     }
-    for t in ["", "s", "10", "10x", "x10s", "1.5h", "10 s", "s10"] {
-        if let Ok(l) = TimeoutLimit::parse(t) { bad.push(format!("REPLAY-FAIL malformed timeout limit `{t}` is accepted as {l:?}")); }
+    // malformed limits (also text that is not ASCII: `on` is free text in a model) are refused with an error -- never a panic: the limit of every rule is
+    // parsed on the tick, and a tick that dies on one rule never reaches the rules after it ("no later than one tick after that")
+    for t in ["", "s", "10", "10x", "x10s", "1.5h", "10 s", "s10", "1\u{ff53}", "\u{e9}", "10\u{e9}", "\u{ff11}s", "\u{ff11}\u{ff10}\u{ff53}", "5\u{442}", "\u{1f552}"] {
+        match std::panic::catch_unwind(|| TimeoutLimit::parse(t)) {
+            Err(_) => bad.push(format!("REPLAY-FAIL malformed timeout limit `{t}` makes TimeoutLimit::parse PANIC instead of returning an error (the tick that evaluates the rule dies)")),
+            Ok(Ok(l)) => bad.push(format!("REPLAY-FAIL malformed timeout limit `{t}` is accepted as {l:?}")),
+            Ok(Err(_)) => {}
+        }
     }
     for b in bad.iter().take(10) { println!("{b}"); }
     assert!(bad.is_empty(), "{} difference(s)", bad.len());
